@@ -414,3 +414,58 @@ func ReplayPart(path string) string {
 	_ = json.Unmarshal(b, &wrap)
 	return wrap.Part
 }
+
+// ParseFuzzCorpus parses a file in Go's native fuzz corpus format ("go test
+// fuzz v1") and returns its values ([]byte, uint8, int, string supported).
+// ok is false when the file is not in that format.
+func ParseFuzzCorpus(path string) (vals []any, ok bool) {
+	b, err := os.ReadFile(path)
+	if err != nil {
+		return nil, false
+	}
+	lines := strings.Split(strings.TrimSpace(string(b)), "\n")
+	if len(lines) == 0 || !strings.HasPrefix(lines[0], "go test fuzz v1") {
+		return nil, false
+	}
+	for _, l := range lines[1:] {
+		l = strings.TrimSpace(l)
+		switch {
+		case strings.HasPrefix(l, "[]byte(") && strings.HasSuffix(l, ")"):
+			s, err := strconv.Unquote(l[len("[]byte(") : len(l)-1])
+			if err != nil {
+				return nil, false
+			}
+			vals = append(vals, []byte(s))
+		case strings.HasPrefix(l, "string(") && strings.HasSuffix(l, ")"):
+			s, err := strconv.Unquote(l[len("string(") : len(l)-1])
+			if err != nil {
+				return nil, false
+			}
+			vals = append(vals, s)
+		case strings.HasPrefix(l, "uint8(") || strings.HasPrefix(l, "byte("):
+			inner := l[strings.Index(l, "(")+1 : len(l)-1]
+			if strings.HasPrefix(inner, "'") {
+				r, _, _, err := strconv.UnquoteChar(inner[1:len(inner)-1], '\'')
+				if err != nil {
+					return nil, false
+				}
+				vals = append(vals, uint8(r))
+			} else {
+				n, err := strconv.ParseUint(inner, 0, 8)
+				if err != nil {
+					return nil, false
+				}
+				vals = append(vals, uint8(n))
+			}
+		case strings.HasPrefix(l, "int("):
+			n, err := strconv.Atoi(l[4 : len(l)-1])
+			if err != nil {
+				return nil, false
+			}
+			vals = append(vals, n)
+		default:
+			return nil, false
+		}
+	}
+	return vals, true
+}
